@@ -323,6 +323,9 @@ class BuiltinModelLoaderGen(ModelLoaderGen):
                     has_skipped_params = True
                     continue
                 if self._is_packed_field(field):
+                    # a packed parameter is passed (if at all) via **packed_fields,
+                    # so the following parameters must not be shifted into its position
+                    has_skipped_params = True
                     continue
 
                 value = state.v_field(field)
